@@ -575,6 +575,45 @@ fn front_ends(rep: &mut Report) {
                 v.push(("C20:sibling-connection-affected".to_string(), format!("after {} malformed inputs on the {fname} listener a well-formed request on a new connection no longer works", garbage.len())));
             }
         }
+        // ---- header blocks that never end: beyond the documented 64 KiB limit the HTTP front-end must give up on the
+        //      connection (an answer or a close) although the client keeps it open and keeps sending
+        for (what, filler, lf_free) in [("a request line without end ('a' only)", b'a', true), ("NUL bytes only", 0u8, true), ("bare CR only", b'\r', true), ("header lines without a blank line", b'h', false)] {
+            let Ok(mut s) = tokio::net::TcpStream::connect(lx.http.unwrap()).await else { continue };
+            let _ = s.set_nodelay(true);
+            let mut sent = 0usize;
+            let mut gave_up = false;
+            let chunk: Vec<u8> = if lf_free { vec![filler; 4096] } else { b"X-Filler: hhhhhhhhhhhhhhhhhhhhhhhhhhhhhhhhhhhhhhhhhhhhhhhhhhhhhhhhhhhhhhhhhhhhhhhhhhhhhhhhhhhhhhhhhhhhhhhh\r\n".repeat(36) };
+            if !lf_free {
+                let _ = s.write_all(b"GET / HTTP/1.1\r\n").await;
+            }
+            // up to 1 MiB, 16x the limit
+            while sent < (1 << 20) {
+                if s.write_all(&chunk).await.is_err() {
+                    gave_up = true;
+                    break;
+                }
+                sent += chunk.len();
+                let mut b = [0u8; 512];
+                match tokio::time::timeout(Duration::from_millis(2), s.read(&mut b)).await {
+                    Ok(Ok(0)) | Ok(Err(_)) => {
+                        gave_up = true;
+                        break;
+                    }
+                    Ok(Ok(_)) => {
+                        gave_up = true; // an answer (400 / 431 ...)
+                        break;
+                    }
+                    Err(_) => {}
+                }
+            }
+            if !gave_up {
+                let (resp, closed) = read_all_or_idle(&mut s, 1500).await;
+                gave_up = closed || !resp.is_empty();
+            }
+            if !gave_up {
+                v.push(("C20:header-without-end-is-buffered-beyond-the-limit".to_string(), format!("http listener, {what}: {sent} bytes were accepted without a header terminator (limit 65536) and the connection is neither answered nor closed")));
+            }
+        }
         // ---- connections that STALL (incomplete input, socket kept open) while a sibling arrives: on both front-end
         //      listeners and on the server's TLS listener
         let stallers: Vec<(&str, Vec<u8>)> = vec![
@@ -685,5 +724,5 @@ pub fn run(tier: Tier) -> i32 {
     if after > before && rep.observations.is_empty() {
         rep.observe(format!("{} panic(s) were counted by the process-wide hook during the run", after - before));
     }
-    rep.finish("IX: single frames over all 256 command bytes x 4 ids x 9 payloads (settings, garbage, invalid UTF-8, 65535 bytes, hostile scheme texts) and all pairs over a reduced alphabet, both roles; every bit flip (first 160 bytes), truncation, frame duplication, adjacent swap and length-field corruption of a recorded conversation in both directions; destination / UDP parsers on all 256 type bytes x lengths x truncations; HTTP header blocks with multi-byte characters at every offset and degenerate targets; LX: malformed input on both front-ends followed by a well-formed sibling request, and connections stalling with incomplete input (held open) on both front-end listeners and the server's TLS listener while a sibling request arrives; oracle: no panic, no spin, and afterwards a well-formed exchange works or the session closed cleanly; non-trivial = distinct case")
+    rep.finish("IX: single frames over all 256 command bytes x 4 ids x 9 payloads (settings, garbage, invalid UTF-8, 65535 bytes, hostile scheme texts) and all pairs over a reduced alphabet, both roles; every bit flip (first 160 bytes), truncation, frame duplication, adjacent swap and length-field corruption of a recorded conversation in both directions; destination / UDP parsers on all 256 type bytes x lengths x truncations; HTTP header blocks with multi-byte characters at every offset and degenerate targets; LX: malformed input on both front-ends followed by a well-formed sibling request, header blocks that never end (1 MiB of LF-free or terminator-free input against the 64 KiB limit), and connections stalling with incomplete input (held open) on both front-end listeners and the server's TLS listener while a sibling request arrives; oracle: no panic, no spin, and afterwards a well-formed exchange works or the session closed cleanly; non-trivial = distinct case")
 }
